@@ -51,7 +51,7 @@ def run(pid, lean_module, theorems, scenarios, rule, tier, seed, level="proof", 
 
     def one(ix_sc, salt=0):
         ix, (name, fn) = ix_sc
-        net = cluster.Net(f"{pid}_{ix}_{salt}")
+        net = cluster.Net(f"{pid}_{ix}_{salt}", with_model=not getattr(fn, "impl_only", False))
         rng = core.XorShift(seed * 7919 + ix + 1 + salt * 1000003)
         try:
             fails = fn(net, rng) or []
@@ -59,6 +59,10 @@ def run(pid, lean_module, theorems, scenarios, rule, tier, seed, level="proof", 
             return dict(name=name, fails=fails, dis=dis, script=list(net.script), ops=len(net.script), delivered=net.delivered,
                         hash=core.trace_hash(cluster.canon_ops(net.script, net.out)))
         except Exception as e:
+            if "implementation (harness process" in str(e):
+                # the real nodes' process is gone (an abort or a panic outside catch_unwind): that IS an observation about the code
+                f = Failure(f"node-process-died:{name.rsplit('-', 1)[0]}", f"{e}; the operations up to there are the replay")
+                return dict(name=name, fails=[f], dis=None, script=list(net.script), ops=len(net.script), delivered=net.delivered, hash=core.trace_hash(cluster.canon_ops(net.script, net.out)))
             return dict(name=name, error=f"{type(e).__name__}: {e}", script=list(net.script), ops=len(net.script), delivered=net.delivered, fails=[], dis=None, hash="")
         finally:
             net.close()
